@@ -240,34 +240,35 @@ Definition after_exception (k : raise_kind) (suite : option path) (r : rstate) :
   if is_exception k then mkRs (handle_exception k suite (rs_t r)) true (rs_children r) false
   else mkRs (rs_t r) (rs_failed r) (rs_children r) true.        (* BaseException: propagates, the worker thread dies *)
 
-(* run_setup_funcs: returns the teardown functions kept (in setup order) *)
-Fixpoint run_setup_funcs (env : name -> inst) (pairs : list pair) (r : rstate) (kept : list (option tfun))
-  : rstate * list (option tfun) :=
+(* run_setup_funcs(funcs, location, suite): returns the teardown functions kept (in setup order); [suite] is what
+   handle_exception receives: the test's suite for a TestTask, None for the suite / session phases *)
+Fixpoint run_setup_funcs (env : name -> inst) (suite : option path) (pairs : list pair) (r : rstate)
+         (kept : list (option tfun)) : rstate * list (option tfun) :=
   match pairs with
   | [] => (r, kept)
-  | (None, td) :: rest => run_setup_funcs env rest r (kept ++ [td])
+  | (None, td) :: rest => run_setup_funcs env suite rest r (kept ++ [td])
   | (Some f, td) :: rest =>
       match call_sfun env f r with
-      | (r1, Some k) => (after_exception k None r1, kept)                 (* handle_exception(e); break *)
+      | (r1, Some k) => (after_exception k suite r1, kept)                (* handle_exception(e, suite); break *)
       | (r1, None) => if rs_failed r1 then (r1, kept)                     (* not is_successful(location): break *)
-                      else run_setup_funcs env rest r1 (kept ++ [td])
+                      else run_setup_funcs env suite rest r1 (kept ++ [td])
       end
   end.
 
 (* run_teardown_funcs: reversed, None skipped, an exception is handled and the loop goes on *)
-Fixpoint run_teardown_list (env : name -> inst) (l : list (option tfun)) (r : rstate) : rstate :=
+Fixpoint run_teardown_list (env : name -> inst) (suite : option path) (l : list (option tfun)) (r : rstate) : rstate :=
   match l with
   | [] => r
-  | None :: rest => run_teardown_list env rest r
+  | None :: rest => run_teardown_list env suite rest r
   | Some f :: rest =>
       if rs_died r then r else
       match call_tfun env f r with
-      | (r1, Some k) => run_teardown_list env rest (after_exception k None r1)
-      | (r1, None) => run_teardown_list env rest r1
+      | (r1, Some k) => run_teardown_list env suite rest (after_exception k suite r1)
+      | (r1, None) => run_teardown_list env suite rest r1
       end
   end.
-Definition run_teardown_funcs (env : name -> inst) (kept : list (option tfun)) (r : rstate) : rstate :=
-  run_teardown_list env (List.rev kept) r.
+Definition run_teardown_funcs (env : name -> inst) (suite : option path) (kept : list (option tfun)) (r : rstate) : rstate :=
+  run_teardown_list env suite (List.rev kept) r.
 
 Definition any_setup (pairs : list pair) : bool := existsb (fun p => match fst p with Some _ => true | None => false end) pairs.
 Definition any_teardown (l : list (option tfun)) : bool := existsb (fun t => match t with Some _ => true | None => false end) l.
@@ -292,7 +293,7 @@ Definition setup_phase (env : name -> inst) (l : loc) (start end_ : revt) (is_st
            (pairs : list pair) : tout :=
   if any_setup pairs then
     let s0 := set_step d [] (hold start (fresh_cursor l [])) in
-    let '(r, kept) := run_setup_funcs env pairs (mkRs s0 false [] false) [] in
+    let '(r, kept) := run_setup_funcs env None pairs (mkRs s0 false [] false) [] in
     if rs_died r then finish r kept else
     let s1 := discard_or_fire is_start end_ (end_step_if_any [] (rs_t r)) in
     finish (mkRs s1 (rs_failed r) (rs_children r) false) kept
@@ -302,7 +303,7 @@ Definition teardown_phase (env : name -> inst) (l : loc) (start end_ : revt) (is
            (kept : list (option tfun)) : tout :=
   if any_teardown kept then
     let s0 := set_step d [] (hold start (fresh_cursor l [])) in
-    let r := run_teardown_funcs env kept (mkRs s0 false [] false) in
+    let r := run_teardown_funcs env None kept (mkRs s0 false [] false) in
     if rs_died r then finish r [] else
     let s1 := discard_or_fire is_start end_ (end_step_if_any [] (rs_t r)) in
     (* teardown tasks never raise TaskFailure *)
@@ -323,7 +324,7 @@ Definition test_run (env : name -> inst) (p : path) (suite : path) (t : test) (h
      match h_teardown_test hk with Some sc => Some (TTeardownTest p sc) | None => None end)
     :: fixture_pairs test_fixtures in
   let s1 := set_step SdSetupTest [] s0 in
-  let '(r1, kept) := if any_setup pairs then run_setup_funcs env pairs (mkRs s1 false [] false) []
+  let '(r1, kept) := if any_setup pairs then run_setup_funcs env (Some suite) pairs (mkRs s1 false [] false) []
                      else (mkRs s1 false [] false, only_teardowns pairs) in
   if rs_died r1 then finish r1 [] else
   let r2 :=
@@ -334,7 +335,7 @@ Definition test_run (env : name -> inst) (p : path) (suite : path) (t : test) (h
     match sr_raised x with Some k => after_exception k (Some suite) r | None => r end in
   if rs_died r2 then finish r2 [] else
   let r3 := if any_teardown kept
-            then run_teardown_funcs env kept (mkRs (set_step SdTeardownTest [] (rs_t r2)) (rs_failed r2) (rs_children r2) false)
+            then run_teardown_funcs env (Some suite) kept (mkRs (set_step SdTeardownTest [] (rs_t r2)) (rs_failed r2) (rs_children r2) false)
             else r2 in
   if rs_died r3 then finish r3 [] else
   let s4 := fire (RTestEnd p) (end_step_if_any [] (rs_t r3)) in
